@@ -8,6 +8,7 @@ open PV
 def respOK (f : Bytes) (off len : Nat) : Resp → Prop
   | .data d => IsSl f off d ∧ 0 < d.length ∧ d.length ≤ len
   | .eof => f.length ≤ off ∨ len = 0
+  | .err _ => True
 
 def ThrOK (info : List Info) : TSt → Prop
   | .allocd n o l _ => ∃ w, info[n]? = some ⟨o, l, w⟩
@@ -196,6 +197,20 @@ theorem asyncResponse_base {s s1 : St} {num : Nat} {r : Resp} (hb : Base s) (hr 
       simp only at h
       cases h
       exact ⟨⟨hb.pos, hb.bufs, hb.s2c, hext, hb.thr, hb.out⟩, rfl, rfl, rfl, rfl⟩
+    | err c =>
+      simp only at h
+      cases h
+      exact ⟨⟨hb.pos, hb.bufs, hb.s2c, hext, hb.thr, hb.out⟩, rfl, rfl, rfl, rfl⟩
+
+/-- a read that raises leaves a consistent state behind -/
+theorem raiseRead_inv {s : St} (c : RCtx) (code : Nat) (hb : Base s) : Inv (raiseRead s c code) :=
+  ⟨⟨hb.pos, hb.bufs, hb.s2c, hb.ext, hb.thr, hb.out⟩, by simp [PcOK, raiseRead]⟩
+
+theorem afterCheck_inv {s : St} {c : RCtx} (hb : Base s) (hc : CtxOK s.file s.realpos c) : Inv (afterCheck s c) := by
+  unfold afterCheck
+  split
+  · exact raiseRead_inv c _ ⟨hb.pos, hb.bufs, hb.s2c, hb.ext, hb.thr, hb.out⟩
+  · exact advance_inv _ _ _ hb hc
 
 /-! ## every action keeps the invariant -/
 
@@ -271,6 +286,26 @@ theorem step_serve_inv {s s' : St} {k : Nat} (hi : Inv s) (h : step s (.serve k)
             rw [List.length_take, List.length_drop]; omega
           · unfold slice
             rw [List.length_take, List.length_drop]; omega
+
+theorem step_serveFail_inv {s s' : St} {code : Nat} (hi : Inv s) (h : step s (.serveFail code) = some s') : Inv s' := by
+  obtain ⟨hb, hp⟩ := hi
+  simp only [step] at h
+  cases hc : s.c2s with
+  | nil => simp [hc] at h
+  | cons num rest =>
+    simp only [hc] at h
+    cases hinf : s.info[num]? with
+    | none => simp [hinf] at h
+    | some i =>
+      simp only [hinf] at h
+      cases h
+      refine ⟨⟨hb.pos, hb.bufs, ?_, hb.ext, hb.thr, hb.out⟩, hp⟩
+      intro e he
+      simp only [List.mem_append, List.mem_singleton] at he
+      rcases he with he | he
+      · exact hb.s2c e he
+      · subst he
+        exact ⟨i, hinf, trivial⟩
 
 theorem step_thread_inv {s s' : St} {i : Nat} (hi : Inv s)
     (h : step s (.tCheck i) = some s' ∨ step s (.tAlloc i) = some s' ∨ step s (.tSend i) = some s' ∨
@@ -393,7 +428,7 @@ theorem step_rStep_inv {s s' : St} (hi : Inv s) (h : step s .rStep = some s') : 
       · cases h
         exact ⟨⟨hb1.pos, hb1.bufs, hb1.s2c, hb1.ext, hb1.thr, hb1.out⟩, by simpa [PcOK] using ⟨hp, hr⟩⟩
       · cases h
-        exact advance_inv _ _ _ ⟨hb1.pos, hb1.bufs, hb1.s2c, hb1.ext, hb1.thr, hb1.out⟩ hp
+        exact afterCheck_inv ⟨hb1.pos, hb1.bufs, hb1.s2c, hb1.ext, hb1.thr, hb1.out⟩ hp
   | dispPf c num r =>
     simp only [hpc] at h hp
     cases ha : asyncResponse s num r with
@@ -401,7 +436,7 @@ theorem step_rStep_inv {s s' : St} (hi : Inv s) (h : step s .rStep = some s') : 
     | some s1 =>
       simp only [ha] at h; cases h
       obtain ⟨hb1, hf, hrp, _, _⟩ := asyncResponse_base hb hp.2 ha
-      apply advance_inv _ _ _ hb1
+      apply afterCheck_inv hb1
       rw [hf, hrp]; exact hp.1
   | allocSync c =>
     simp only [hpc] at h hp; cases h
@@ -457,6 +492,9 @@ theorem step_rStep_inv {s s' : St} (hi : Inv s) (h : step s .rStep = some s') : 
           have := hsz.1
           show s.file.length ≤ s.realpos
           omega
+        | err code =>
+          simp only at h; cases h
+          exact raiseRead_inv c code ⟨hb1.pos, hb1.bufs, hb1.s2c, hb1.ext, hb1.thr, hb1.out⟩
       · simp only [hn, if_false] at h
         split at h
         · cases h
@@ -499,9 +537,20 @@ theorem asyncResponse_file {s s1 : St} {n : Nat} {r : Resp} (h : asyncResponse s
   · cases h
   · split at h <;> (cases h; rfl)
 
+theorem afterCheck_file (s : St) (c : RCtx) : (afterCheck s c).file = s.file := by
+  unfold afterCheck
+  split
+  · rfl
+  · exact advance_file _ _ _
+
 theorem step_file {s s' : St} {a : Act} (h : step s a = some s') : s'.file = s.file := by
   cases a with
   | serve k =>
+    simp only [step] at h
+    split at h
+    · cases h
+    · split at h <;> (cases h; try rfl)
+  | serveFail code =>
     simp only [step] at h
     split at h
     · cases h
@@ -525,34 +574,52 @@ theorem step_file {s s' : St} {a : Act} (h : step s a = some s') : s'.file = s.f
     · cases h
   | rStep =>
     simp only [step] at h
-    split at h
-    · cases h
-    · cases h; exact advance_file _ _ _
-    · split at h
-      · cases h
-      · split at h
+    cases hpc : s.pc with
+    | idle => simp [hpc] at h
+    | cont c => simp only [hpc] at h; cases h; exact advance_file _ _ _
+    | recvPf c =>
+      simp only [hpc] at h
+      cases hq : s.s2c with
+      | nil => simp [hq] at h
+      | cons e rest =>
+        simp only [hq] at h
+        split at h
         · cases h; rfl
-        · cases h; exact advance_file _ _ _
-    · split at h
-      · cases h
-      · rename_i s1 ha
-        cases h
-        rw [advance_file]; exact asyncResponse_file ha
-    · cases h; rfl
-    · cases h; rfl
-    · split at h
-      · cases h
-      · split at h
-        · split at h
-          · split at h
+        · cases h; exact afterCheck_file _ _
+    | dispPf c num r =>
+      simp only [hpc] at h
+      cases ha : asyncResponse s num r with
+      | none => simp [ha] at h
+      | some s1 =>
+        simp only [ha] at h; cases h
+        rw [afterCheck_file]; exact asyncResponse_file ha
+    | allocSync c => simp only [hpc] at h; cases h; rfl
+    | sendSync c n => simp only [hpc] at h; cases h; rfl
+    | recvSync c num =>
+      simp only [hpc] at h
+      cases hq : s.s2c with
+      | nil => simp [hq] at h
+      | cons e rest =>
+        obtain ⟨n', r⟩ := e
+        simp only [hq] at h
+        by_cases hn : n' = num
+        · simp only [hn, if_true] at h
+          cases r with
+          | data d =>
+            simp only at h
+            split at h
             · cases h; rfl
             · cases h; exact advance_file _ _ _
-          · cases h; rfl
-        · split at h <;> (cases h; rfl)
-    · split at h
-      · cases h
-      · rename_i s1 ha
-        cases h
+          | eof => simp only at h; cases h; rfl
+          | err code => simp only at h; cases h; rfl
+        · simp only [hn, if_false] at h
+          split at h <;> (cases h; rfl)
+    | dispSync c num n' r =>
+      simp only [hpc] at h
+      cases ha : asyncResponse s n' r with
+      | none => simp [ha] at h
+      | some s1 =>
+        simp only [ha] at h; cases h
         exact asyncResponse_file (s1 := s1) ha
 
 theorem run_file (s : St) (as : List Act) : (run s as).file = s.file := by
@@ -568,6 +635,7 @@ theorem run_file (s : St) (as : List Act) : (run s as).file = s.file := by
 theorem step_inv {s s' : St} {a : Act} (hi : Inv s) (h : step s a = some s') : Inv s' := by
   cases a with
   | serve k => exact step_serve_inv hi h
+  | serveFail c => exact step_serveFail_inv hi h
   | tCheck i => exact step_thread_inv hi (Or.inl h)
   | tAlloc i => exact step_thread_inv hi (Or.inr (Or.inl h))
   | tSend i => exact step_thread_inv hi (Or.inr (Or.inr (Or.inl h)))
